@@ -259,6 +259,9 @@ def parse_assumptions(log):
             while i < len(lines) and lines[i].strip() and not lines[i].startswith("Closed under") \
                     and not lines[i].startswith("COQC") and not lines[i].startswith("make"):
                 m = re.match(r"^(\S+)\s*:", lines[i])
+                if lines[i].strip() == "Axioms:":
+                    i += 1
+                    continue
                 if m and not lines[i].startswith(" "):
                     axioms.add(m.group(1))
                 i += 1
